@@ -80,6 +80,10 @@ async def _agen(pieces: List[bytes]):
         await asyncio.sleep(0)
 
 
+NOTIF_HANDLING = 0.1  # seconds the scripted server spends on a client notification
+LAST_SERVER_LOG: List[Any] = []  # methods in the order the server finished handling them, for the last run_carrier call
+
+
 def run_carrier(carrier: str, steps: List[Dict[str, Any]], client_fn: Callable) -> Any:
     """Run client_fn(read, write) against a scripted peer answering the i-th request with steps[i]."""
     from chuk_mcp.transports.http.http_client import http_client
@@ -90,6 +94,8 @@ def run_carrier(carrier: str, steps: List[Dict[str, Any]], client_fn: Callable) 
 
     counter = {"n": 0}
     result: Dict[str, Any] = {}
+    server_log: List[Any] = LAST_SERVER_LOG
+    del server_log[:]
 
     cur = {"cuts": []}
 
@@ -116,7 +122,9 @@ def run_carrier(carrier: str, steps: List[Dict[str, Any]], client_fn: Callable) 
                         buf["b"] += data
                         while b"\n" in buf["b"]:
                             line, buf["b"] = buf["b"].split(b"\n", 1)
-                            rep = next_reply(json.loads(line))
+                            req_ = json.loads(line)
+                            server_log.append(req_.get("method") if isinstance(req_, dict) else "?")
+                            rep = next_reply(req_)
                             blob = b"".join((json.dumps(m, ensure_ascii=False) + "\n").encode("utf-8") for m in rep or [])
                             for piece in segments(blob, cur["cuts"]):  # pipe reads are not aligned to lines
                                 proc.stdout.feed(piece)
@@ -126,9 +134,15 @@ def run_carrier(carrier: str, steps: List[Dict[str, Any]], client_fn: Callable) 
                     result["v"] = await client_fn(r, w)
         elif carrier in ("http-json", "http-sse"):
             async def handler(request: httpx.Request) -> httpx.Response:
-                rep = next_reply(json.loads(request.content))
+                req_ = json.loads(request.content)
+                rep = next_reply(req_)
                 if rep is None:
+                    # the server takes a moment to act on a client notification; it has "seen" a message once
+                    # it has finished handling it
+                    await asyncio.sleep(NOTIF_HANDLING)
+                    server_log.append(req_.get("method") if isinstance(req_, dict) else "?")
                     return httpx.Response(202)
+                server_log.append(req_.get("method") if isinstance(req_, dict) else "?")
                 if carrier == "http-json":
                     return httpx.Response(200, headers={"content-type": "application/json"}, content=_agen(segments(json.dumps(rep[-1], ensure_ascii=False).encode("utf-8"), cur["cuts"])))
                 body = "".join("event: message\ndata: " + json.dumps(m, ensure_ascii=False) + "\n\n" for m in rep)
@@ -145,7 +159,11 @@ def run_carrier(carrier: str, steps: List[Dict[str, Any]], client_fn: Callable) 
                     es.feed(b"event: endpoint\ndata: /messages/?session_id=s1\n\n")
                     return httpx.Response(200, headers={"content-type": "text/event-stream"}, content=es.gen())
                 i_before = counter["n"]
-                rep = next_reply(json.loads(request.content))
+                req_ = json.loads(request.content)
+                rep = next_reply(req_)
+                if rep is None:
+                    await asyncio.sleep(NOTIF_HANDLING)
+                server_log.append(req_.get("method") if isinstance(req_, dict) else "?")
                 mode = steps[i_before].get("sse_order", "202-first") if (rep is not None and i_before < len(steps)) else "202-first"
 
                 cuts_ = list(cur["cuts"])
@@ -282,14 +300,24 @@ def check(case: Dict[str, Any]) -> Outcome:
             except Exception as e:  # noqa
                 outs.append(("raise", type(e).__name__, getattr(e, "code", None)))
             await asyncio.sleep(0.05)
+        await asyncio.sleep(0.2)
         return outs
 
     outcomes: Dict[str, Any] = {}
+    logs: Dict[str, List[Any]] = {}
     for c in carriers:
         try:
             outcomes[c] = run_carrier(c, steps, client_b)
+            logs[c] = list(LAST_SERVER_LOG)
         except Exception as e:  # noqa
             out.fail(f"carrier-raised:{c}", f"{type(e).__name__}: {e}")
+            return out
+    # what the client wrote must reach the server in the order it was written, whatever carries it
+    for c in carriers[1:]:
+        a_, b_ = logs[carriers[0]], logs[c]
+        k_ = min(len(a_), len(b_))  # (a trailing notification may still be in the server's hands when the client leaves)
+        if a_[:k_] != b_[:k_] or abs(len(a_) - len(b_)) > 1:
+            out.fail(f"server-sees-client-messages-in-another-order:{carriers[0]}-vs-{c}", f"{logs[carriers[0]]} vs {logs[c]}")
             return out
     # script-derived expectation
     for c in carriers:
